@@ -11,6 +11,7 @@ package mapping
 import (
 	"bytes"
 	"fmt"
+	"net/textproto"
 	"os"
 	"reflect"
 	"regexp"
@@ -110,9 +111,15 @@ const (
 	c05Reader c05API = "UnmarshalJsonReader"
 	c05Key    c05API = "UnmarshalKey"
 	c05Form   c05API = "NewUnmarshaler(form,WithStringValues).Unmarshal"
+	c05Path   c05API = "NewUnmarshaler(path,WithStringValues).Unmarshal"
+	c05Header c05API = "NewUnmarshaler(header,WithStringValues,CanonicalMIMEHeaderKey).Unmarshal"
 )
 
 var c05FormUnmarshaler = NewUnmarshaler("form", WithStringValues())
+
+// the same constructions api/httpx and api/internal/encoding use for path variables and headers
+var c05PathUnmarshaler = NewUnmarshaler("path", WithStringValues())
+var c05HeaderUnmarshaler = NewUnmarshaler("header", WithStringValues(), WithCanonicalKeyFunc(textproto.CanonicalMIMEHeaderKey))
 
 // c05Decode turns rendered JSON into the generic map the map-based entry points take
 // (numbers as json.Number, exactly as jsonx hands them to the unmarshaller).
@@ -172,6 +179,15 @@ func c05Raw(api c05API, s *c05gen.Shape, payload []byte) c05Out {
 				return err
 			}
 			return c05FormUnmarshaler.Unmarshal(mm, v)
+		case c05Path, c05Header:
+			mm, err := c05Decode(payload)
+			if err != nil {
+				return err
+			}
+			if api == c05Path {
+				return c05PathUnmarshaler.Unmarshal(mm, v)
+			}
+			return c05HeaderUnmarshaler.Unmarshal(mm, v)
 		}
 		return fmt.Errorf("c05: unknown api %s", api)
 	})
@@ -461,6 +477,11 @@ func c05Scenario(m *vk.M, idx int, quickDocs int) {
 				// (number spellings such as 1.0 or 1e2 are legitimately read differently by the two parsers)
 				y, dy := c05Call(cm, c05YAML, shape, c.Doc, "class=adversarial")
 				bad = c05Judge(cm, c05YAML, c, c.Doc, y, dy, "free", ft)
+				if !bad && c05gen.YAMLCanonical(c.Doc) {
+					// every number is spelled so that both parsers read the same number (plain decimal integers up
+					// to MaxUint64, float64-exact non-integers): whatever the right answer is, it must be the same
+					bad = c05Equiv(cm, c, c.Doc, fo, y, fd, "adversarial document")
+				}
 			}
 			if m.WantSample() && idx%997 == 3 && k == 0 {
 				m.Sample(map[string]any{"class": "adversarial", "mutation": ft.Desc, "shape": shape.String(), "doc": c05Short(c05gen.JSON(c.Doc)), "observed": fo.String()})
